@@ -135,6 +135,9 @@ fn all_due_answered(log: &[Ev]) -> bool {
 /// Cost model switch (set per script by the caller): with sleeping timers one deviation buys every firing instant of a
 /// timer thread (see the comment in `run`); the exploration of a script then grows by one to two orders of magnitude,
 /// so it is used for the scripts that are about timers outliving their search, not for the whole command alphabet.
+/// seconds without any schedule event after which the thread holding the baton is taken to be blocked outside the hooks
+pub const OUTSIDE_AFTER_SECS: u64 = 8;
+
 pub static SLEEPY_TIMERS: std::sync::atomic::AtomicBool = std::sync::atomic::AtomicBool::new(false);
 
 pub fn run(script: &[Line], prefix: &[usize], horizon: usize) -> Exec {
@@ -157,16 +160,34 @@ pub fn run(script: &[Line], prefix: &[usize], horizon: usize) -> Exec {
     let mut hard_deadlock = false;
     let mut unwinding = false;
     let mut asleep: Vec<bool> = vec![];
+    let mut outside_marks = 0usize;
     loop {
         let mut g = lock();
         // wait for quiescence: nobody holds the baton, no thread about to be born, everyone parked or finished
         loop {
             let s = g.as_ref().unwrap();
-            let quiet = s.current.is_none() && s.expected_spawns == 0 && !s.threads.is_empty() && s.threads.iter().all(|t| t.finished || t.park.is_some());
+            let quiet = s.current.is_none() && s.expected_spawns == 0 && !s.threads.is_empty() && s.threads.iter().all(|t| t.finished || t.park.is_some() || t.outside);
             if quiet {
                 break;
             }
-            g = CV.wait(g).unwrap_or_else(|e| e.into_inner());
+            let events_before = s.events.len();
+            let (g2, to) = CV.wait_timeout(g, std::time::Duration::from_secs(OUTSIDE_AFTER_SECS)).unwrap_or_else(|e| e.into_inner());
+            g = g2;
+            if to.timed_out() {
+                // nothing happened for a long time: the thread holding the baton is blocked in (or busy with) something
+                // the hooks do not see. Waiting for it for ever would hang the explorer; a real engine's other threads
+                // keep running while one of them blocks, so the controller marks it and schedules the others.
+                let s = g.as_mut().unwrap();
+                if s.events.len() == events_before {
+                    if let Some(i) = s.current {
+                        if i < s.threads.len() && !s.threads[i].finished && s.threads[i].park.is_none() {
+                            s.threads[i].outside = true;
+                            s.current = None;
+                            outside_marks += 1;
+                        }
+                    }
+                }
+            }
         }
         let s = g.as_mut().unwrap();
         // fold new outputs / consumptions into the ordered log
@@ -189,7 +210,8 @@ pub fn run(script: &[Line], prefix: &[usize], horizon: usize) -> Exec {
         }
         let mut enabled: Vec<usize> = vec![];
         for (i, t) in s.threads.iter().enumerate() {
-            if t.finished {
+            if t.finished || t.park.is_none() {
+                // finished, or blocked outside the schedule points (see `outside`)
                 continue;
             }
             let ok = match &t.park.as_ref().unwrap().0 {
@@ -223,7 +245,7 @@ pub fn run(script: &[Line], prefix: &[usize], horizon: usize) -> Exec {
             s.force_stop = true;
             unwinding = true;
         }
-        let parked = |s: &Sched| -> String { s.threads.iter().filter(|t| !t.finished).map(|t| format!("{}@{}", t.name, t.park.as_ref().map(|p| p.1).unwrap_or("?"))).collect::<Vec<_>>().join(", ") };
+        let parked = |s: &Sched| -> String { s.threads.iter().filter(|t| !t.finished).map(|t| format!("{}@{}", t.name, t.park.as_ref().map(|p| p.1).unwrap_or(if t.outside { "<blocked outside the schedule points>" } else { "?" }))).collect::<Vec<_>>().join(", ") };
         if enabled.is_empty() {
             if !unwinding {
                 verdict.get_or_insert(format!("nobody can make progress: the GUI is still waiting (next line #{} {:?}) while the engine threads are blocked: [{}]", next_line, script.get(next_line).map(|l| l.text.as_str()).unwrap_or("<EOF>"), parked(s)));
